@@ -2,8 +2,9 @@
 (***************************************************************************)
 (* C20: each interaction / form is defined at most once.                   *)
 (*                                                                         *)
-(* A file is a base model plus ONE extra entry produced by a duplication   *)
-(* operator.  An entry DEFINES a thing (an unordered species pair, an      *)
+(* A model is a base model plus ONE extra entry produced by a duplication  *)
+(* operator; the extra entry is written in the file or arrives through     *)
+(* --add-item / additional= (route "add").  An entry DEFINES a thing (an unordered species pair, an      *)
 (* ordered density pair, a species' embedding function, a form label ...). *)
 (* The reader is the chain of stages of the implementation that can notice *)
 (* a second definition; the switches model the unrepaired tree.            *)
@@ -13,7 +14,9 @@ EXTENDS Integers, Sequences, FiniteSets, TLC, SequencesExt, Json, IOUtils
 CONSTANTS RawStrict,        \* strict reader compares raw spellings: whitespace variants of a key are NOT duplicates for it
           FormulaShadows,   \* a [Potential-Form] with the label of a [Table-Form] silently replaces it
           DipoleUnchecked,  \* reversed duplicates in [EAM-ADP-Dipole] / [EAM-ADP-Quadrupole] are not looked for
-          BuiltinClashCrashes \* a [Table-Form] named like a built-in form raises an internal error instead of a configuration error
+          BuiltinClashCrashes, \* a [Table-Form] named like a built-in form raises an internal error instead of a configuration error
+          LateBuiltinShadowed, \* built-in forms registered AFTER the user's forms (as.buck4) are silently replaced by a user form of that name
+          AddRawKey            \* the already-exists guard of the add route compares the raw key spelling
 
 \* an entry: section kind, the thing it defines, and how its key is spelled relative to the first definition
 \*   spelling: "same" | "ws" (whitespace variant) | "rev" (species the other way round) | "revws" | "other-arity" | "n/a"
@@ -37,29 +40,41 @@ Ops == {
   [op |-> "table-ws",         sec |-> "Table-Form",     thing |-> "form tf",     sp |-> "ws"],
   [op |-> "table-vs-formula", sec |-> "Table-Form",     thing |-> "form f",      sp |-> "n/a"],
   [op |-> "table-vs-builtin", sec |-> "Table-Form",     thing |-> "form as.buck", sp |-> "n/a"],
+  [op |-> "table-vs-late-builtin", sec |-> "Table-Form", thing |-> "form as.buck4", sp |-> "n/a"],
+  [op |-> "form-vs-builtin",  sec |-> "Potential-Form", thing |-> "form as.buck", sp |-> "n/a"],
+  [op |-> "form-vs-late-builtin", sec |-> "Potential-Form", thing |-> "form as.buck4", sp |-> "n/a"],
   [op |-> "section-twice",    sec |-> "Pair",           thing |-> "section Pair", sp |-> "same"] }
 
-VARIABLES op, stage, outcome    \* outcome: "pending" | "config" | "internal" | "accepted"
-vars == <<op, stage, outcome>>
+Routes == {"file", "add"}
+\* an added item is one key of an existing section: whole sections cannot be duplicated that way
+Addable(o) == o.sec # "Table-Form" /\ o.op # "section-twice"
 
-Stages == <<"strict-read", "dup-pairs", "dup-table-sections", "registry-tables", "registry-forms", "builders", "end">>
+VARIABLES op, route, stage, outcome    \* outcome: "pending" | "config" | "internal" | "accepted"
+vars == <<op, route, stage, outcome>>
+
+Stages == <<"strict-read", "add-guard", "dup-pairs", "dup-table-sections", "registry-tables", "registry-forms", "registry-late-builtins", "builders", "end">>
 
 \* does stage st notice the second definition introduced by operator o ?
 Catches(st, o) ==
   CASE st = "strict-read" ->
          \* configparser strict mode: same section name, or same option name in a section (after optionxform)
-         \/ o.op = "section-twice"
-         \/ o.sp = "same"                                                  \* incl. two identical [Table-Form:tf] headers
-         \/ o.sec # "Table-Form" /\ o.sp = "ws" /\ ~RawStrict
+         /\ route = "file"
+         /\ \/ o.op = "section-twice"
+            \/ o.sp = "same"                                                  \* incl. two identical [Table-Form:tf] headers
+            \/ o.sec # "Table-Form" /\ o.sp = "ws" /\ ~RawStrict
+    [] st = "add-guard" ->
+         \* _init_config_parser: an additional item whose (normalised) key is already in the section
+         route = "add" /\ (o.sp = "same" \/ (o.sp = "ws" /\ ~AddRawKey))
     [] st = "dup-pairs" -> o.sec = "Pair" /\ o.sp \in {"rev", "revws"}           \* _check_for_duplicate_pairs: either order, stripped
     [] st = "dup-table-sections" -> o.sec = "Table-Form" /\ o.sp = "ws"       \* [Table-Form:tf] / [Table-Form: tf]: names stripped before comparison
     [] st = "registry-tables" -> o.op = "table-vs-builtin"                          \* table forms are built after the built-ins are registered
-    [] st = "registry-forms" -> o.op = "form-other-arity" \/ (o.op = "table-vs-formula" /\ ~FormulaShadows)
+    [] st = "registry-forms" -> o.op \in {"form-other-arity", "form-vs-builtin"} \/ (o.op = "table-vs-formula" /\ ~FormulaShadows)
+    [] st = "registry-late-builtins" -> o.op \in {"table-vs-late-builtin", "form-vs-late-builtin"} /\ ~LateBuiltinShadowed
     [] st = "builders" -> o.sec = "EAM-ADP-Dipole" /\ o.sp = "rev" /\ ~DipoleUnchecked   \* pair-like ADP sections get the [Pair] check
     [] OTHER -> FALSE
 
 
-Init == op \in Ops /\ stage = 1 /\ outcome = "pending"
+Init == op \in Ops /\ route \in Routes /\ (route = "add" => Addable(op)) /\ stage = 1 /\ outcome = "pending"
 
 Step == /\ outcome = "pending"
         /\ IF Stages[stage] = "end" THEN outcome' = "accepted" /\ UNCHANGED stage
@@ -67,7 +82,7 @@ Step == /\ outcome = "pending"
                 THEN /\ outcome' = IF Stages[stage] = "registry-tables" /\ BuiltinClashCrashes THEN "internal" ELSE "config"
                      /\ UNCHANGED stage
                 ELSE stage' = stage + 1 /\ UNCHANGED outcome
-        /\ UNCHANGED op
+        /\ UNCHANGED <<op, route>>
 
 Spec == Init /\ [][Step]_vars
 
@@ -76,7 +91,8 @@ NoDuplicateSurvives == outcome \in {"pending", "config"}
 Terminates == (~ENABLED Step) => outcome # "pending"
 
 Emit == IF "EMIT" \in DOMAIN IOEnv /\ IOEnv.EMIT = "1"
-        THEN ndJsonSerialize(IOEnv.VERIF_OUT \o "/cases.ndjson", SetToSeq(Ops))
+        THEN ndJsonSerialize(IOEnv.VERIF_OUT \o "/cases.ndjson", SetToSeq({[op |-> x[1].op, sec |-> x[1].sec, thing |-> x[1].thing, sp |-> x[1].sp, route |-> x[2]] :
+                                                                              x \in {y \in Ops \X Routes : y[2] = "add" => Addable(y[1])}}))
         ELSE TRUE
 ASSUME Emit
 =============================================================================
